@@ -10,8 +10,8 @@ META = {
     "level": "exploration",
     "engine": "crypto",
     "technique": "TLA+ spec CryptoBinding (symbolic binding terms; TLC checks accept <=> nothing changed and sign/verify id agreement, and refutes a concatenating hash model) as cell enumerator and accept/reject oracle; every TLC behaviour applied to real DefaultCipherSuite keys through sign_cmd/verify_cmd and the crypto FFI verify (TABLE pattern)",
-    "text": "TLC enumerates every sequence of <= 3 (thorough 4) tamper steps over: replace signing key / name (different, extended) / parent id / command bytes (different, truncated); boundary shifts data->name, name->data, name->parent->data, data->parent->name (concatenation unchanged); modification of the first/middle/last signature byte, truncated/extended signature; modification of the first/middle/last byte of the claimed command id; including sequences that restore the original (shift + inverse shift, extend + truncate) which must verify again. Each cell is run on seeded instances (unit widths 1, 5, 16 bytes) through verify_cmd+id comparison and through crypto::verify in an Open context. Decides: verification succeeds with the signer's command id iff the spec says nothing changed.",
-    "note": "Exploration level: the spec is enumerator and oracle, no cryptographic assurance. Bounds: tamper depth 3/4, 3 (thorough 8) instances per cell, Ed25519/SHA-256 DefaultCipherSuite only. Trusted: harness byte surgery mirrors the spec's symbolic moves (cross-checked: concrete equality with the original must agree with the spec's `unchanged`, else the instance is skipped as drift).",
+    "text": "TLC enumerates every sequence of <= 3 (thorough 4) tamper steps over: replace signing key / name (different, extended) / parent id / command bytes (different, truncated, and values related to the signed bytes: their SHA-256 and SHA-512 digests and their 32-byte prefix); boundary shifts data->name, name->data, name->parent->data, data->parent->name (concatenation unchanged); modification of the first/middle/last signature byte, truncated/extended signature; modification of the first/middle/last byte of the claimed command id; including sequences that restore the original (shift + inverse shift, extend + truncate) which must verify again. Command data lengths: small (2 units of 1, 5, 16 bytes) at full depth, and 1, 4096, 4097 and 70000 bytes (straddling size thresholds; shifts move the length across them) one step shallower. Each cell is run on seeded instances through verify_cmd+id comparison and through crypto::verify in an Open context. Decides: verification succeeds with the signer's command id iff the spec says nothing changed.",
+    "note": "Exploration level: the spec is enumerator and oracle, no cryptographic assurance. Bounds: tamper depth 3/4 (large data 2/3), 3 (thorough 8) instances per cell, Ed25519/SHA-256 DefaultCipherSuite only. Trusted: harness byte surgery mirrors the spec's symbolic moves (cross-checked: concrete equality with the original must agree with the spec's `unchanged`, else the instance is skipped as drift).",
 }
 
 
@@ -27,6 +27,13 @@ def run(ctx):
         return
     cu.sensitivity(ctx)
     cells = cu.cells_for(ctx, "cmdsig", thorough_depth=4)
+    # command data lengths straddling size thresholds (4096, 4097, 70000 bytes), one step shallower
+    big = cu.cells_for(ctx, "cmdsig_big", thorough_depth=3, datalens=cu.BIG_DATA)
+    if {b["plen"] for b in big} != set(cu.BIG_DATA):
+        raise verif.ToolError("vacuous enumeration: data length classes missing")
+    if not any(o["op"] == "replace" and o["a"] == "data" and o["b"] >= 3 for b in big for o in b["ops"]):
+        raise verif.ToolError("vacuous enumeration: no related-value replacement of the data")
+    cells = cells + big
     for kind in ("move", "replace", "flip", "trunc", "ext"):
         if not any(o["op"] == kind for b in cells for o in b["ops"]):
             raise verif.ToolError("vacuous enumeration: no %s step" % kind)
